@@ -151,7 +151,7 @@ func c05MatchSelector(sel *metav1.LabelSelector, lbls map[string]string) bool {
 
 var (
 	c05LabelKeys = []string{"app", "team", "tier"}
-	c05LabelVals = []string{"a", "b", "x"}
+	c05LabelVals = []string{"a", "b", "x", ""}
 	c05Namespace = []string{"default", "ns1"}
 	c05PodNames  = []string{"p0", "p1", "p2", "p3"}
 	c05PodUIDs   = []types.UID{"u0", "u1", "u2", "u3"}
@@ -182,6 +182,10 @@ func c05GenOwnerPod(r *kit.Rand) *corev1.Pod {
 	}
 	for n := r.Weighted(40, 45, 15); n > 0; n-- {
 		o := metav1.OwnerReference{APIVersion: "apps/v1", Kind: kit.Pick(r, c05CtlKinds), Name: kit.Pick(r, c05CtlNames), UID: kit.Pick(r, c05CtlUIDs)}
+		if r.Pct(20) {
+			b := r.Bool()
+			o.BlockOwnerDeletion = &b
+		}
 		switch r.Intn(3) {
 		case 0:
 			t := true
@@ -208,7 +212,7 @@ func c05GenSelector(r *kit.Rand) *metav1.LabelSelector {
 		switch r.Weighted(30, 25, 20, 20, 5) {
 		case 0:
 			e.Operator = metav1.LabelSelectorOpIn
-			for m := r.Range(1, 2); m > 0; m-- {
+			for m := r.Range(1, 3); m > 0; m-- {
 				e.Values = append(e.Values, kit.Pick(r, c05LabelVals))
 			}
 		case 1:
@@ -238,7 +242,7 @@ func c05GenSelector(r *kit.Rand) *metav1.LabelSelector {
 }
 
 func c05GenOwners(r *kit.Rand) []schedulingv1alpha1.ReservationOwner {
-	n := r.Weighted(8, 50, 30, 12)
+	n := r.Weighted(8, 48, 28, 10, 4, 2)
 	var owners []schedulingv1alpha1.ReservationOwner
 	for i := 0; i < n; i++ {
 		var o schedulingv1alpha1.ReservationOwner
@@ -258,6 +262,10 @@ func c05GenOwners(r *kit.Rand) []schedulingv1alpha1.ReservationOwner {
 			}
 			if r.Pct(25) {
 				ref.APIVersion = "v1"
+			}
+			if r.Pct(15) { // fields that do not identify a pod
+				ref.ResourceVersion = "12345"
+				ref.FieldPath = "spec.containers{main}"
 			}
 			o.Object = ref
 		}
@@ -286,6 +294,10 @@ func c05GenOwners(r *kit.Rand) []schedulingv1alpha1.ReservationOwner {
 				f := false
 				ref.Controller = &f
 			}
+			if r.Pct(15) {
+				b := r.Bool()
+				ref.BlockOwnerDeletion = &b
+			}
 			o.Controller = ref
 		}
 		if r.Pct(60) {
@@ -297,14 +309,18 @@ func c05GenOwners(r *kit.Rand) []schedulingv1alpha1.ReservationOwner {
 }
 
 var (
-	c05CPU = []string{"0", "1m", "250m", "500m", "999m", "1", "1001m", "1500m", "2", "3", "4", "7", "8"}
-	c05Mem = []string{"0", "1", "128Mi", "1Gi", "1G", "1536Mi", "2Gi", "4Gi", "8Gi", "9007199254740993"}
+	c05CPU = []string{"0", "1m", "100m", "250m", "0.5", "500m", "999m", "1", "1001m", "1.5", "1500m", "2", "3", "4", "7", "8", "16", "64"}
+	c05Mem = []string{"0", "1", "100M", "128Mi", "1Gi", "1G", "1536Mi", "1.5Gi", "2Gi", "4Gi", "8Gi", "64Gi", "9007199254740993", "4611686018427387904"}
 	c05GPU = []string{"0", "1", "2", "4"}
+	c05Ext = []string{"0", "1", "1000", "1500", "4000", "32000"}
 )
 
-const c05GPUName corev1.ResourceName = "example.com/gpu"
+const (
+	c05GPUName corev1.ResourceName = "example.com/gpu"
+	c05ExtName corev1.ResourceName = "kubernetes.io/batch-cpu"
+)
 
-var c05ResNames = []corev1.ResourceName{corev1.ResourceCPU, corev1.ResourceMemory, c05GPUName, corev1.ResourceEphemeralStorage}
+var c05ResNames = []corev1.ResourceName{corev1.ResourceCPU, corev1.ResourceMemory, c05GPUName, corev1.ResourceEphemeralStorage, c05ExtName}
 
 func c05GenQuantity(r *kit.Rand, name corev1.ResourceName) resource.Quantity {
 	switch name {
@@ -312,6 +328,8 @@ func c05GenQuantity(r *kit.Rand, name corev1.ResourceName) resource.Quantity {
 		return resource.MustParse(kit.Pick(r, c05CPU))
 	case c05GPUName:
 		return resource.MustParse(kit.Pick(r, c05GPU))
+	case c05ExtName:
+		return resource.MustParse(kit.Pick(r, c05Ext))
 	default:
 		return resource.MustParse(kit.Pick(r, c05Mem))
 	}
@@ -321,7 +339,11 @@ func c05GenQuantity(r *kit.Rand, name corev1.ResourceName) resource.Quantity {
 func c05GenRequests(r *kit.Rand, pNames []int) corev1.ResourceList {
 	rl := corev1.ResourceList{}
 	for i, n := range c05ResNames {
-		if r.Pct(pNames[i]) {
+		p := 8 // names beyond the given probabilities
+		if i < len(pNames) {
+			p = pNames[i]
+		}
+		if r.Pct(p) {
 			rl[n] = c05GenQuantity(r, n)
 		}
 	}
@@ -361,9 +383,15 @@ func c05SplitContainers(r *kit.Rand, rl corev1.ResourceList) []corev1.Container 
 	return cs
 }
 
-// c05PodRequests: the pod's request, recomputed from the pod object (sum over regular containers).
+// c05PodRequests: the pod's request, recomputed from the pod object by the Kubernetes rule for the effective
+// request of a pod: per resource the larger of (sum over the regular containers) and (the largest init
+// container), plus the pod overhead. Restartable (sidecar) init containers and pod-level resources are not
+// generated.
 func c05PodRequests(p *corev1.Pod) corev1.ResourceList {
 	out := corev1.ResourceList{}
+	if p == nil {
+		return out
+	}
 	for _, ct := range p.Spec.Containers {
 		for n, q := range ct.Resources.Requests {
 			cur := out[n]
@@ -371,7 +399,32 @@ func c05PodRequests(p *corev1.Pod) corev1.ResourceList {
 			out[n] = cur
 		}
 	}
+	for _, ct := range p.Spec.InitContainers {
+		for n, q := range ct.Resources.Requests {
+			if cur, ok := out[n]; !ok || q.Cmp(cur) > 0 {
+				out[n] = q.DeepCopy()
+			}
+		}
+	}
+	for n, q := range p.Spec.Overhead {
+		cur := out[n]
+		cur.Add(q)
+		out[n] = cur
+	}
 	return out
+}
+
+// c05Shape gives a pod spec, with modest weight, the shapes whose request is not the plain container sum: an
+// init container (15%) and a pod overhead (10%).
+func c05Shape(r *kit.Rand, spec *corev1.PodSpec) {
+	if r.Pct(15) {
+		rl := c05GenRequests(r, []int{60, 50, 15, 10})
+		spec.InitContainers = []corev1.Container{{Name: "init", Resources: corev1.ResourceRequirements{Requests: rl}}}
+	}
+	if r.Pct(10) {
+		spec.Overhead = corev1.ResourceList{corev1.ResourceCPU: resource.MustParse(kit.Pick(r, []string{"1m", "100m", "250m"})),
+			corev1.ResourceMemory: resource.MustParse(kit.Pick(r, []string{"1", "64Mi", "128Mi"}))}
+	}
 }
 
 // c05Dims: the reservation's reserved dimensions, from the reservation object. The reserved resources are the
@@ -497,6 +550,11 @@ func c05OwnersStr(o []schedulingv1alpha1.ReservationOwner) string {
 	return string(b)
 }
 
+// c05TemplateR: the same reserved amounts spread over one or two containers.
+func c05TemplateR(r *kit.Rand, rl corev1.ResourceList) *corev1.PodTemplateSpec {
+	return &corev1.PodTemplateSpec{Spec: corev1.PodSpec{Containers: c05SplitContainers(r, rl)}}
+}
+
 func c05Template(rl corev1.ResourceList) *corev1.PodTemplateSpec {
 	return &corev1.PodTemplateSpec{Spec: corev1.PodSpec{Containers: []corev1.Container{{Name: "main", Resources: corev1.ResourceRequirements{Requests: rl.DeepCopy()}}}}}
 }
@@ -506,7 +564,7 @@ func c05Template(rl corev1.ResourceList) *corev1.PodTemplateSpec {
 
 func TestVerifC05Owners(t *testing.T) {
 	kit.Run(t, kit.Config{Property: "C05", Unit: "owners", Quick: 100000, Thorough: 2000000,
-		Rule: "random owner specification (0-3 entries; object ref / controller ref / label selector each present or absent, partially filled; 5% of selector terms unparsable) x random pod (namespace, name, uid, labels, 0-2 owner references), ReservationInfo built by NewReservationInfo, by UpdateReservation over a different spec, or by NewReservationInfoFromPod (owners annotation); distinct = (shape of every entry, construction path, MatchOwners, matcher); non-trivial = specification with at least one non-empty entry"},
+		Rule: "random owner specification (0-5 entries; object ref / controller ref / label selector each present or absent, partially filled; 5% of selector terms unparsable) x random pod (namespace, name, uid, labels, 0-2 owner references), ReservationInfo built by NewReservationInfo, by UpdateReservation over a different spec, or by NewReservationInfoFromPod (owners annotation); distinct = (shape of every entry, construction path, MatchOwners, matcher); non-trivial = specification with at least one non-empty entry"},
 		func(c *kit.Case) {
 			r := c.R
 			owners := c05GenOwners(r)
@@ -596,7 +654,7 @@ func c05GenReservation(r *kit.Rand) *schedulingv1alpha1.Reservation {
 	}
 	res := &schedulingv1alpha1.Reservation{
 		ObjectMeta: metav1.ObjectMeta{Name: "r", UID: "r-uid", Annotations: map[string]string{}},
-		Spec: schedulingv1alpha1.ReservationSpec{Template: c05Template(alloc),
+		Spec: schedulingv1alpha1.ReservationSpec{Template: c05TemplateR(r, alloc),
 			Owners: []schedulingv1alpha1.ReservationOwner{{}}},
 		Status: schedulingv1alpha1.ReservationStatus{Phase: schedulingv1alpha1.ReservationAvailable, NodeName: "n0", Allocatable: alloc.DeepCopy()},
 	}
@@ -743,18 +801,25 @@ func c05CheckLedger(c *kit.Case, where string, ri *ReservationInfo, res *schedul
 
 func TestVerifC05RInfoLedger(t *testing.T) {
 	kit.Run(t, kit.Config{Property: "C05", Unit: "rinfo-ledger", Quick: 6000, Thorough: 150000,
-		Rule: "histories of 20-80 add / repeated add / remove / remove-unknown / update-reservation (allocatable amounts, allocatable names, policy, restricted options, phase) operations on one ReservationInfo over 3-7 pods with boundary-biased requests; oracle after every step; distinct = (op, policy, #dims, #assigned, dims changed); non-trivial = a history in which an assigned pod was removed after the reservation object had been updated"},
+		Rule: "histories of 20-80 add / repeated add / remove / remove-unknown / update-reservation (allocatable amounts, allocatable names, policy, restricted options, phase) operations (10%: 80-200) on one ReservationInfo over 3-7 pods (15%: 8-12; init containers / overhead with modest weight) with boundary-biased requests up to 2^62; oracle after every step; distinct = (op, policy, #dims, #assigned, dims changed); non-trivial = a history in which an assigned pod was removed after the reservation object had been updated"},
 		func(c *kit.Case) {
 			r := c.R
 			res := c05GenReservation(r)
 			ri := NewReservationInfo(res)
 			c.Op("new reservation policy=%q allocatable=%s options=%q", res.Spec.AllocatePolicy, c05RL(res.Status.Allocatable), res.Annotations[apiext.AnnotationReservationRestrictedOptions])
 			npods := r.Range(3, 7)
+			if r.Pct(15) {
+				npods = r.Range(8, 12)
+			}
 			pods := make([]*c05LPod, npods)
 			for i := range pods {
 				rl := c05GenRequests(r, []int{80, 70, 30, 15})
 				p := &corev1.Pod{ObjectMeta: metav1.ObjectMeta{Namespace: "default", Name: fmt.Sprintf("p%d", i), UID: types.UID(fmt.Sprintf("pod-%d", i))},
 					Spec: corev1.PodSpec{Containers: c05SplitContainers(r, rl)}}
+				c05Shape(r, &p.Spec)
+				if len(p.Spec.InitContainers) > 0 || p.Spec.Overhead != nil {
+					c.Count("ledger_pods_with_init_or_overhead", 1)
+				}
 				pods[i] = &c05LPod{pod: p, req: c05PodRequests(p)}
 				c.Op("pod %d requests %s (%d containers)", i, c05RL(pods[i].req), len(p.Spec.Containers))
 			}
@@ -779,6 +844,9 @@ func TestVerifC05RInfoLedger(t *testing.T) {
 			// policy, restricted options); the others only change amounts and phase
 			dimsMayChange := r.Pct(30)
 			nops := r.Range(20, 80)
+			if r.Pct(10) {
+				nops = r.Range(80, 200)
+			}
 			for step := 0; step < nops; step++ {
 				op := r.Weighted(34, 6, 26, 6, 28)
 				where := ""
